@@ -6,7 +6,7 @@ import ast
 from framelint.core import rule, Ctx
 from framelint.srcmodel import walk_own, AnalysisError, FuncInfo
 from framelint.canon import (Canon, CanonOptions, canon_function, show, S, to_poly, mk_lt, mk_and, mk_not, mk_eq, k_num,
-                             contains, skey, atoms_of, Sigma, diff_paths)
+                             contains, skey, atoms_of, Sigma, diff_paths, K_TRUE, subst)
 from framelint.cfg import EXIT, ENTRY
 from framelint.kinds import IndexSpec, IndexTyper
 from .common import (GEOM, ALLOC, sigma_xy, stmt_calls, facts_text, call_name, norm_stmt, assert_conjuncts,
@@ -391,3 +391,79 @@ def r6(ctx: Ctx) -> None:
         d = diff_paths(ia, b)
         ctx.report(fg.where, f"mirror[cut-loops] {d[0][:200] if d else ''}", "the x-cut loop and the y-cut loop of griddify are not mirror images",
                    lineno=ly.lineno, differences=d)
+
+
+@rule("C02", "R7.termination", "RANK",
+      "the recursive splitter terminates for every request: its base case is 'levels == 0', every recursive call passes "
+      "levels - 1, and every external caller passes a level count that is >= 0 by construction (a count asserted "
+      "positive, the literal 0, or maximum depth - own depth over the same cells)", floor=4)
+def r7(ctx: Ctx) -> None:
+    sp = splitter_role(ctx)
+    c = canon_function(sp, ctx.model)
+    params = sp.params()
+    # the rank parameter: the one the base case tests against 0
+    from framelint.peval import paths
+    ps = paths(c, fall=("k", "none", None))
+    base = [(l, o) for l, o in ps if not contains(o, sp.name)]
+    rank = None
+    if len(base) == 1 and len(base[0][0]) == 1:
+        t = base[0][0][0]
+        if t[0] == "eq0" and t[1][0] == "p":
+            rank = t[1]
+    ctx.site(sp.where, "base case of the recursive splitter is 'levels == 0'", rank=show(rank) if rank else None)
+    if rank is None:
+        ctx.report(sp.where, "splitter-base-test", "the recursive splitter has no base case of the form 'levels == 0' (exactly one non-recursive path)", lineno=sp.node.lineno)
+        return
+    k = rank[1]
+    selfcalls = [x for x in atoms_of(c, lambda x: x[0] == "c" and contains(x[1], sp.name) and len(x[2]) == len(params))]
+    ctx.site(sp.where, "every recursive call passes levels - 1", calls=len(selfcalls))
+    for sc in selfcalls:
+        if sc[2][k] != (to_poly(rank) - to_poly(k_num(1))).to_s():
+            ctx.report(sp.where, f"splitter-rank {show(sc[2][k])}", "a recursive call of the splitter does not pass 'levels - 1': for some level count the base case "
+                       "'levels == 0' is never reached and the refinement does not terminate", lineno=sp.node.lineno)
+    if len(selfcalls) < 2:
+        ctx.report(sp.where, "splitter-rank-calls", "the two recursive calls of the splitter were not found", lineno=sp.node.lineno)
+    # external callers
+    n_callers = 0
+    for f in ctx.model.all_functions():
+        if f is sp or f.module.relpath != ALLOC:
+            continue
+        g = None
+        for n, c_, s in stmt_calls(ctx, f):
+            if s is None or not (contains(s[1], sp.name) and len(s[2]) == len(params)):
+                continue
+            n_callers += 1
+            g = g or ctx.cfg(f)
+            lv = s[2][k]
+            facts = g.facts_at(n.id)
+            cf = canon_function(f, ctx.model)
+
+            def nonneg(e) -> bool:
+                if e == k_num(0) or (e[0] == "k" and e[1] == "num" and e[2][0] >= 0):
+                    return True
+                if mk_lt(k_num(0), e) in facts or mk_not(mk_lt(e, k_num(0))) in facts:
+                    return True
+                if any(st[0] == "assert" and (mk_lt(k_num(0), e) in (set(st[1][1]) if st[1][0] == "and" else {st[1]}) or
+                                               mk_not(mk_lt(e, k_num(0))) in (set(st[1][1]) if st[1][0] == "and" else {st[1]})) for st in cf):
+                    return True     # asserted at the top of the function (levels is a parameter, never re-assigned)
+                if e[0] == "ite":
+                    return nonneg(e[2]) and nonneg(e[3])
+                # max(depth of every cell) - depth of this cell, the cell being one of those cells
+                p = to_poly(e)
+                if len(p.t) == 2:
+                    pos = [a for mono, co in p.t.items() if co == 1 for a, _ in mono]
+                    neg = [a for mono, co in p.t.items() if co == -1 for a, _ in mono]
+                    if len(pos) == 1 and len(neg) == 1 and pos[0][0] == "c" and pos[0][1] == ("g", "max") and len(pos[0][2]) == 1 \
+                            and pos[0][2][0][0] == "comp" and len(pos[0][2][0][3]) == 1:
+                        comp = pos[0][2][0]
+                        b, it, cond = comp[3][0]
+                        loops = [lp for lp in atoms_of(cf, lambda x: x[0] == "for" and len(x) == 5) if lp[2] == it and contains(lp[3], s)]
+                        if cond == K_TRUE and loops and subst(comp[2][0], {b: loops[0][1]}) == neg[0]:
+                            return True
+                return False
+            ok = nonneg(lv)
+            ctx.site(f.where, "level count handed to the splitter is >= 0 by construction", levels=show(lv)[:160], ok=ok)
+            if not ok:
+                ctx.report(f.where, f"splitter-levels {f.qualname}", f"{f.qualname} can hand a negative level count to the recursive splitter, whose base case "
+                           "'levels == 0' is then never reached", lineno=n.lineno, levels=show(lv)[:200])
+    ctx.require(n_callers >= 2, "callers of the recursive splitter not found")
